@@ -30,17 +30,23 @@ import (
 // destroyed when it becomes empty), members are fired again from several goroutines at offsets spread around that
 // flush, and a reader keeps listing the groups (lock contention). A re-fired alert that ends up in no live group, or is
 // never reported firing, is a permanent state: waiting longer can never turn a pass into a failure.
-func TestC05Stress(t *testing.T) {
+func TestC05Stress(t *testing.T) { c05Stress(t, "C05", "C05Stress") }
+
+// TestC14StressRefire: the same run judged for C14 ("a resolve-then-fire is never notified as resolved and dropped from
+// its group").
+func TestC14StressRefire(t *testing.T) { c05Stress(t, "C14", "C14StressRefire") }
+
+func c05Stress(t *testing.T, prop, name string) {
 	if pbt.Replaying() {
 		t.Skip("statistical check: no replay")
 	}
-	m := pbt.NewManual("C05", "C05Stress", "black box, real scheduler and clock: 4 groups x 800 alerts, group_wait 10 ms, group_interval 30 ms, maintenance 15 ms; per round every alert fires, is notified, resolves; the delivery that reports a group resolved fires one member again (a new submission through the provider) and returns 0-120 us later, so that the re-fire races the removal of the resolved alerts and the destruction of the emptied group; another goroutine keeps listing the groups. After the round (polled up to 10 s) every re-fired alert must sit in a live aggregation group and have been reported firing after its re-fire. Non-trivial: every re-fire.")
+	m := pbt.NewManual(prop, name, "black box, real scheduler and clock: 12 groups x 300 alerts, group_wait 10 ms, group_interval 30 ms, maintenance 15 ms; per round every alert fires, is notified, resolves; the delivery that reports a group resolved fires one member again (a new submission through the provider) and returns 0-120 us later, so that the re-fire races the removal of the resolved alerts and the destruction of the emptied group; another goroutine keeps listing the groups. After the round (polled up to 10 s) every re-fired alert must sit in a live aggregation group and have been reported firing after its re-fire. Non-trivial: every re-fire.")
 	defer m.Flush()
 	rounds := 25
 	if pbt.Thorough() {
 		rounds = 200
 	}
-	const G, M = 4, 800
+	const G, M = 12, 300
 	ctx, cancel := context.WithCancel(context.Background())
 	defer cancel()
 	alerts, err := mem.NewAlerts(ctx, time.Hour, 0, nil, nopLog, eventrecorder.NopRecorder(), prometheus.NewRegistry(), featurecontrol.NoopFlags{})
